@@ -1,5 +1,6 @@
 import FsnVerif.Model.Inotify
 import FsnVerif.Model.Diff
+import FsnVerif.Model.Kqueue
 import FsnVerif.Proofs.DiffLemmas
 /-!
 # Line-protocol driver (core-only, compiled): runs the executable model on the op lines the
@@ -161,6 +162,17 @@ def step (st : DState) (line : String) : DState × String :=
     let (q, r) := recursivePath (en == "1") (unhex p)
     (st, s!"{hex q} {if r then 1 else 0}")
   | "scenario" :: _ => (st, "ok")
+  | "kqstate" :: args =>
+    -- the executable invariant of `Model/Kqueue` evaluated on a snapshot of the implementation
+    let semi := fun (k : String) => let v := kv args k; if v == "-" || v == "" then [] else v.splitOn ";"
+    let wd := (semi "wd").filterMap fun e => match e.splitOn ":" with
+      | [fd, nm, d] => some (natOf fd, ({ wd := natOf fd, name := unhex nm, linkName := [], isDir := d == "1" } : Kq.KW))
+      | _ => none
+    let path := (semi "path").filterMap fun e => match e.splitOn ":" with
+      | [p, fd] => some (unhex p, natOf fd)
+      | _ => none
+    let ks : Kq.KState := { wd := wd, path := path, byUser := (semi "byuser").map unhex, openFds := csvNats (kv args "open") }
+    (st, if ks.inv then "ok" else "INV-VIOLATED")
   | ["dblocks", a, b] =>
     let ms := Diff.matchingBlocks (tokLines a) (tokLines b)
     (st, ";".intercalate (ms.map fun m => s!"{m.a},{m.b},{m.size}"))
